@@ -12,10 +12,16 @@ Types4 == IF AllCodes THEN 0..255 ELSE (0..20) \cup {40, 42, 43, 128, 253, 255}
 Types6 == IF AllCodes THEN 0..255 ELSE (0..6) \cup (125..162) \cup {200, 201, 255}
 
 \* the input space is split by a seed (message family x type / first option token) so that TLC expands the seeds in parallel
+\* rest-of-header patterns for the typed messages: all zeros, all ones, alternating, single bits at both ends of every byte
+Pats == {<<0, 0, 0, 0>>, <<255, 255, 255, 255>>, <<165, 90, 165, 90>>, <<90, 165, 90, 165>>, <<128, 1, 128, 1>>, <<1, 128, 64, 2>>, <<0, 0, 255, 255>>, <<255, 255, 0, 0>>}
 Icmp4Of(t) == UNION {{[kind |-> "icmp4", bytes |-> <<t, c, 18, 52>> \o P(n, t + c)] : n \in (IF t \in {13, 14} /\ c = 0 THEN {4, 15, 16, 17} ELSE {4, 9})}
+                     \cup (IF Icmp4Kind(t, c) # "Unknown" /\ c <= 16
+                           THEN {[kind |-> "icmp4", bytes |-> <<t, c, 18, 52>> \o pt \o (IF t \in {13, 14} THEN pt \o pt \o pt ELSE <<7>>)] : pt \in Pats} ELSE {})
                      : c \in Codes}
 Icmp6Of(t) == UNION {{[kind |-> "icmp6", bytes |-> <<t, c, 18, 52>> \o P(n, t + 2 * c)]
                       : n \in (LET k == Icmp6Kind(t, c) IN IF k = "Unknown" THEN {4, 12} ELSE {4, 4 + NdFixed(k), 4 + NdFixed(k) + 8} \cup (IF NdFixed(k) > 0 THEN {3 + NdFixed(k)} ELSE {}))}
+                     \cup (LET k == Icmp6Kind(t, c) IN IF k # "Unknown"
+                           THEN {[kind |-> "icmp6", bytes |-> <<t, c, 18, 52>> \o pt \o P(NdFixed(k), 3)] : pt \in Pats} ELSE {})
                      : c \in Codes}
 
 NdTokens == { <<1, 1>> \o P(6, 1), <<2, 2>> \o P(14, 2), <<3, 4>> \o P(30, 3), <<4, 1>> \o P(6, 4), <<4, 3>> \o P(22, 4), <<5, 1>> \o P(6, 5), <<6, 1>> \o P(6, 6),
